@@ -80,6 +80,11 @@ def binding_selftest(wd):
     badn = validate("ParserTrace", cor, True)
     print("setup: binding self-test ParserTrace: %d rejects on real traces, %d rejects on 3 corrupted traces" % (good, badn))
     ok = ok and good == 0 and badn >= 3
+    # the design model must be able to fail: with the top-level fetch unprotected (the pinned code) NoEscape is violated
+    cfg = "CONSTANTS N = 3  MaxDepth = 2  MaxErr = 3  EntryFetchProtected = FALSE\nSPECIFICATION Spec\nCONSTRAINT Constraint\nINVARIANTS NoEscape ErrorContract BadExact BadInRange\nCHECK_DEADLOCK FALSE\n"
+    r = common.tlc("ParserRuntime", cfg, os.path.join(wd, "pr-pinned"), workers=4, heap="4g", timeout=600, name="ParserRuntime_pinned")
+    print("setup: ParserRuntime with the unprotected top-level fetch: violated invariant = %s (expected NoEscape)" % r.violated)
+    ok = ok and r.violated == "NoEscape"
     if not ok:
         print("setup: binding self-test FAILED")
         return 2
